@@ -449,7 +449,11 @@ PROPS = {
               # exhaustive), sampled; every call followed by a full observation
               dict(driver="hist", gen="core", args=[], quick=400, thorough=20000),
               dict(driver="hist", args=["--nops", "45", "--per-file", "6", "--profile", "trivial",
-                                        "--compact-bias", "1"], quick=12, thorough=300)]),
+                                        "--compact-bias", "1"], quick=12, thorough=300),
+              # values of 2.2 .. 3.2 MiB (larger than the memtable, than a file, than any
+              # internal size limit), frequent reopens: such a value is often still in the log
+              dict(driver="hist", args=["--nops", "40", "--per-file", "4", "--giant-values",
+                                        "--reopen-bias", "1"], quick=8, thorough=200)]),
     "C03": dict(
         design=[(CORE, [Q1], ["MC_RainCore_small.cfg", "MC_RainCore_pins.cfg"])],
         switches=[("Bug_DropAboveSnapshot", CORE, Q1, "ReadCorrect"),
